@@ -36,21 +36,24 @@ def nontrivial(e):
 
 def MC_RUNS(quick):
     """(spec module, cfg, constants, pure?)"""
-    runs = [("MCGF2m", "MCGF2m_small", "PURE lib/GF2m (no accelerator) vs native-integer reference + field axioms: every "
-                                       "operand pair of GF(8), GF(16), GF(32); irreducibility vs trial division below x^8+x^5+x^3+x^2", True),
+    runs = [("MCGF2m", "MCGF2m_small", "PURE lib/GF2m (no accelerator) vs a native-integer reference + field axioms: every "
+                                       "operand pair of GF(8), GF(16), GF(32); irreducibility vs trial division below 300", True),
             ("MCGF2m", "MCGF2m", "ACCELERATED lib/GF2m (GF2m.class) against the same statements: every operand pair of "
                                  "GF(2^m), m = 3,4,5,7,8,9; irreducibility of every polynomial below 600", False),
             ("MCBinCurve", "MCBinCurve", "the definition (lib/BinCurve) is a group law: every curve y^2+xy=x^3+ax^2+b over "
-                                         "GF(8), GF(16): all triples associative, order-two point, halving, Koblitz Frobenius", False),
-            ("FbLow", "FbLow", "fb_muln_low (Lopez-Dahab comb, 4-bit window) and fb_rdcn_low/fb_rdc1_low (trinomial and "
-                               "pentanomial fast reduction) as coded over 8-bit digits: m = 9..17 cases, every operand pair / "
-                               "every double-length value against lib/GF2m", False),
-            ("Tnaf", "Tnaf", "bn_rec_tnaf / bn_rec_tnaf_mod / bn_rec_tnaf_get as coded: k P = sum u_i tau^i P on the Koblitz "
-                             "curves over GF(2^5), GF(2^7) for every k, w = 2..5", False)]
+                                         "GF(8), GF(16): all triples associative, the order-two point, halving, Koblitz Frobenius", False),
+            ("FbLow", "FbLow", "fb_muln_low (Lopez-Dahab comb, 4-bit window), fb_mul1_low, fb_rdcn_low, fb_rdc1_low as coded, "
+                               "8-bit digits: every pair of one-digit operands, every 2-digit a x 3 operands b, x^9+x+1: every "
+                               "double-length value", False),
+            ("FbLow", "FbLow_w4q", "fb_rdcn_low / fb_rdc1_low as coded, 4-bit digits: 3 trinomials + 4 pentanomials of degree 9, "
+                                   "EVERY double-length value of degree <= 2m-2 against GModPoly", False)]
     if not quick:
         runs += [("MCGF2m", "MCGF2m", "PURE lib/GF2m: every operand pair of GF(2^m), m = 3,4,5,7,8,9", True),
                  ("MCGF2m", "MCGF2m_full", "ACCELERATED: every operand pair for 12 field polynomials up to degree 10", False),
-                 ("MCBinCurve", "MCBinCurve_m5", "every curve over GF(8), GF(16) (second polynomial) and GF(32)", False)]
+                 ("MCBinCurve", "MCBinCurve_m5", "every curve over GF(8), GF(16) (second polynomials) and GF(32)", False),
+                 ("FbLow", "FbLow_w8full", "comb multiplication, 8-bit digits: every 2-digit a x 16 operands b, 14 single digits", False),
+                 ("FbLow", "FbLow_full", "fast reduction, 4-bit digits: 19 trinomials / pentanomials of degree 9..11, every "
+                                         "double-length value", False)]
     return runs
 
 
